@@ -7,6 +7,19 @@ props = [json.loads(l) for l in open(os.path.join(V, "properties.jsonl"))]
 
 # property id -> (category, technique, level text, level note) ; absent = not claimed (reason in NOT_APPLICABLE)
 CLAIMS = {
+ "C01": ("exploration",
+         "runtime monitoring: differential oracle (reference evaluator, 8 evaluation strategies) + metamorphic spelling comparison over typed random programs with tick traces",
+         "typed random terminating programs over the core forms are evaluated form by form by the real interpreter; the value and the tick trace (order and multiplicity of operand evaluation) of every form are judged by an independent reference evaluator under one consistent evaluation strategy, and four equivalent spellings of each program must agree with each other.",
+         "trusted base: vlib/ref_scheme.py (written from R7RS); integers kept below 2^20 so arithmetic defects cannot interfere"),
+ "C02": ("exploration",
+         "runtime monitoring: native probe samples real machine stack depth and live heap at every loop iteration; flatness invariant + closed-form result",
+         "loops whose recursive call sits in compositions of the 16 tail contexts x 8 loop shapes x direct/apply x N are run on the real interpreter; a native probe called once per iteration records the machine stack depth and a counting allocator's live bytes; after warm-up both must be flat and the result must equal the closed form. Two genuine defects (tail apply, Rc cycle per internal procedure) are listed as known findings.",
+         "flatness thresholds 1 KiB stack / 1 byte per iteration heap (three orders of magnitude of margin); 'any N' sampled at the stated N"),
+ "C03": ("exploration",
+         "runtime monitoring: history + executable store model, unique written values, probe reads after every write, alias partition from Rc pointer identity",
+         "random histories of definitions, assignments through closures, counter/cell/box/bag generators and vector writes through every kind of alias are run on one interpreter; after every write a probe reads all aliases; values, error kinds and the partition of reachable vectors into objects (Rc pointer identity) must equal the store model's.",
+         "trusted base: vlib/ref_scheme.py store model; cyclic vectors are not generated"),
+
  "C07": ("exploration",
          "runtime monitoring: panic/abort monitor + post-state sanity oracle over exhaustive short strings, token soup, shaped programs, mutants; ASan and Miri legs in thorough",
          "every generated input is evaluated by the real interpreter under catch_unwind on a guarded thread, followed by a sanity form on the same instance; panics, aborts and a wrong sanity result are violations. Held on the K inputs explored (exhaustive up to a stated length, then seeded generators); says nothing about inputs not generated.",
